@@ -612,11 +612,7 @@ pub fn deep_attempt_scope(rep: &mut Report, tag: &str, thorough: bool) {
                 if matches!(e, Exec::Pk) && n > 720_000 {
                     continue;
                 }
-                regress::verif::fuel::reset(u64::MAX);
-                let got = match guarded(std::panic::AssertUnwindSafe(|| fmt_matches(&find_all(&re, e, &hay, 0, 0).0))) {
-                    Ok(t) => t,
-                    Err(m) => format!("panic: {}", m),
-                };
+                let got = find_all_deadline(&re, e, &hay, 180);
                 if got != want {
                     rep.violation(&format!("impl-vs-oracle:{}", tag), format!("{}: expected [{}], got [{}]", e.name(), want, if got.len() > 300 { &got[..300] } else { &got }), label.clone());
                 }
@@ -646,12 +642,7 @@ pub fn deep_attempt_scope(rep: &mut Report, tag: &str, thorough: bool) {
                 if matches!(e, Exec::Pk) && n > 720_000 {
                     continue;
                 }
-                regress::verif::fuel::reset(u64::MAX);
-                let r = guarded(std::panic::AssertUnwindSafe(|| fmt_matches(&find_all(&re, e, &hay, 0, 0).0)));
-                let got = match r {
-                    Ok(t) => t,
-                    Err(m) => format!("panic: {}", m),
-                };
+                let got = find_all_deadline(&re, e, &hay, 180);
                 if got != want {
                     rep.violation(
                         &format!("impl-vs-oracle:{}", tag),
@@ -858,5 +849,29 @@ pub fn class_edge_prefix_scope(rep: &mut Report) {
                 rep.case(&format!("/{}/{}", pat, fl), true);
             }
         }
+    }
+}
+
+/// Run an UNBUDGETED search in its own thread with a wall-clock limit: a change that makes a linear search
+/// quadratic or worse on a multi-million character haystack shows as a timeout (the thread is abandoned).
+pub fn find_all_deadline(re: &regress::Regex, e: crate::util::Exec, hay: &str, secs: u64) -> String {
+    use crate::util::*;
+    let (tx, rx) = std::sync::mpsc::channel();
+    let re2 = re.clone();
+    let hay2 = hay.to_string();
+    std::thread::Builder::new()
+        .stack_size(64 << 20)
+        .spawn(move || {
+            regress::verif::fuel::reset(u64::MAX);
+            let r = match guarded(std::panic::AssertUnwindSafe(|| fmt_matches(&find_all(&re2, e, &hay2, 0, 0).0))) {
+                Ok(t) => t,
+                Err(m) => format!("panic: {}", m),
+            };
+            let _ = tx.send(r);
+        })
+        .expect("thread");
+    match rx.recv_timeout(std::time::Duration::from_secs(secs)) {
+        Ok(t) => t,
+        Err(_) => format!("timeout: no answer within {} s", secs),
     }
 }
